@@ -330,7 +330,7 @@ pub fn eval(hc: &HistCheck, h: &History, st: &mut Stats, excuse: (bool, bool)) -
         let blind = |calls: &[&Concrete]| -> Vec<OpResult> {
             let level = pricelevel::PriceLevel::new(h.price);
             let gen = pricelevel::UuidGenerator::new(uuid::Uuid::from_u128(0x5eed));
-            calls.iter().map(|c| apply_concrete(&level, &gen, c, 2_000_000)).collect()
+            calls.iter().map(|c| apply_concrete(&level, &gen, c, 200_000_000)).collect()
         };
         let all: Vec<&Concrete> = it.concrete.iter().collect();
         let no_reads: Vec<&Concrete> = it.concrete.iter().filter(|c| !matches!(c, Concrete::Read(_))).collect();
